@@ -206,6 +206,32 @@ size_t w_sitos(ST v%(garg)s, char* b) { std::string s = %(I)s(v%(g)s); COPY_OUT 
 void h_sutos() { GHOST; char* b; UT v;%(gd)s w_sutos(v%(g)s, b); CANARY; }
 void h_sitos() { GHOST; char* b; ST v;%(gd)s w_sitos(v%(g)s, b); CANARY; }
 }
+// the public dispatch headers int2string.hpp / grouped_int2string.hpp (T-INST of the enable_if overload sets, see R-SFINAE):
+// the overload selected for the W-bit unsigned / signed type carries the contract of the converter it must forward to
+#define CV_T(b, s) CV_T_##b##_##s
+#define CV_T_1_true int8_t
+#define CV_T_1_false uint8_t
+#define CV_T_2_true int16_t
+#define CV_T_2_false uint16_t
+#define CV_T_4_true int32_t
+#define CV_T_4_false uint32_t
+#define CV_T_8_true int64_t
+#define CV_T_8_false uint64_t
+#ifndef GROUPED
+#include "celma/format/int2string.hpp"
+#define DISPATCH celma::format::int2string
+#else
+#include "celma/format/grouped_int2string.hpp"
+#define DISPATCH celma::format::grouped_int2string
+#endif
+extern "C" {
+void h_dutos() { GHOST; char* b; UT v;%(gd)s DISPATCH(b, v%(g)s); CANARY; }
+void h_ditos() { GHOST; char* b; ST v;%(gd)s DISPATCH(b, v%(g)s); CANARY; }
+size_t w_dsutos(UT v%(garg)s, char* b) { std::string s = DISPATCH(v%(g)s); COPY_OUT ROUNDTRIP(UT, 0) return n; }
+size_t w_dsitos(ST v%(garg)s, char* b) { std::string s = DISPATCH(v%(g)s); COPY_OUT ROUNDTRIP(ST, v < 0) return n; }
+void h_dsutos() { GHOST; char* b; UT v;%(gd)s w_dsutos(v%(g)s, b); CANARY; }
+void h_dsitos() { GHOST; char* b; ST v;%(gd)s w_dsitos(v%(g)s, b); CANARY; }
+}
 ''' % dict(stem=stem, W=W, U=U, N=N, I=I, g=g, gd=gd, garg=(', char g' if grouped else ''))
 
 
@@ -232,6 +258,27 @@ class Unit:
         self.shadow.extract('celma/format/string_to.hpp', [
             Rule('T-INST-primary', r'^template< typename T> T stringTo\( const std::string& std\);\n', '', 1),
             Rule('T-INST-spec', r'template<> t stringTo< t>\( const std::string& str\)', 'inline t stringTo( const std::string& str, t*)', 1)])
+        # R-SFINAE: enable_if overload sets are not supported by the front end; the eight (size, signedness) rows of the dispatch
+        # header are textually instantiated with the fixed-width type of that row (CV_T(b, s), defined by the harness and
+        # witnessed with g++: each type satisfies exactly the enable_if condition of its row)
+        self.shadow.extract('celma/format/int2string.hpp', [
+            Rule('R-SFINAE-macro', r'#define  TEMPLATE_ENABLE_IF\( b, s, r\) \\\n   template< typename T> \\\n      std::enable_if_t< std::is_integral< T>::value && \(sizeof\( T\) == b\) && \\\n'
+                                   r'                        std::is_signed< T>::value == s, \\\n                        r>',
+                 '#define  TEMPLATE_ENABLE_IF( b, s, r) inline r', 1),
+            Rule('R-SFINAE-T', r'int2string\( T value\)', 'int2string( CV_T( b, s) value)', 1),
+            Rule('R-SFINAE-T-buf', r'int2string\( char\* buffer, T value\)', 'int2string( char* buffer, CV_T( b, s) value)', 1),
+            Rule('drop-type_traits', r'#include <type_traits>\n', '', 1)])
+        def pre_g(t):
+            i, j = t.index('template< typename T = int32_t'), t.index('} // namespace format')
+            return t[:i] + t[j:]
+        self.shadow.dropped += ['GroupedInt<T,S> class template and groupedInt<T>() (stream wrapper)']
+        self.shadow.extract('celma/format/grouped_int2string.hpp', [
+            Rule('R-SFINAE-macro', r'#define  TEMPLATE_ENABLE_IF\( b, s, r\) \\\n   template< typename T> \\\n      std::enable_if_t< std::is_integral< T>::value && \(sizeof\( T\) == b\) \\\n'
+                                   r'                        && std::is_signed< T>::value == s, \\\n                        r>',
+                 '#define  TEMPLATE_ENABLE_IF( b, s, r) inline r', 1),
+            Rule('R-SFINAE-T', r'grouped_int2string\( T value,', 'grouped_int2string( CV_T( b, s) value,', 1),
+            Rule('R-SFINAE-T-buf', r'grouped_int2string\( char\* buffer, T value,', 'grouped_int2string( char* buffer, CV_T( b, s) value,', 1),
+            Rule('drop-includes', r'#include <(type_traits|iostream)>\n', '', 2)], pre=pre_g)
         self.witnesses = []
         self.witness()
 
@@ -250,6 +297,15 @@ class Unit:
                 os.makedirs(os.path.dirname(out), exist_ok=True)
                 open(out, 'w').write(core.auto_witness_text(open(os.path.join(core.SRC, c)).read()))
                 self.witnesses.append(core.gxx_syntax(out, [wdir, core.SRC], 'R-AUTO type witness ' + c))
+        t = self.scratch.write('witness/sfinae.cpp', '#include <cstdint>\n#include <type_traits>\n#include <string>\n#include "celma/format/int2string.hpp"\n' + ''.join(
+            'static_assert(std::is_integral<%s>::value && sizeof(%s) == %d && std::is_signed<%s>::value == %s, "R-SFINAE row");\n'
+            'static_assert(std::is_same<decltype(celma::format::int2string((char*)0, (%s)0)), int>::value, "row selected");\n' % (t_, t_, b, t_, sg, t_)
+            for b in (1, 2, 4, 8) for sg, t_ in (('true', 'int%d_t' % (8 * b)), ('false', 'uint%d_t' % (8 * b)))))
+        self.witnesses.append(core.gxx_syntax(t, [core.SRC], 'R-SFINAE witness: CV_T(b,s) satisfies the enable_if row (g++)'))
+        t = self.scratch.write('witness/sfinae_g.cpp', '#include <cstdint>\n#include <type_traits>\n#include <string>\n#include "celma/format/grouped_int2string.hpp"\n' + ''.join(
+            'static_assert(std::is_same<decltype(celma::format::grouped_int2string((char*)0, (%s)0)), int>::value, "row selected");\n' % t_
+            for b in (1, 2, 4, 8) for t_ in ('int%d_t' % (8 * b), 'uint%d_t' % (8 * b))))
+        self.witnesses.append(core.gxx_syntax(t, [core.SRC], 'R-SFINAE witness (grouped header, g++)'))
         t = self.scratch.write('witness/lp64.cpp', '#include <cstdint>\n#include <cstddef>\n'
                                'static_assert(sizeof(int)==4 && sizeof(long)==8 && sizeof(size_t)==8 && sizeof(void*)==8, "LP64");\n'
                                'static_assert(std::is_same<uint64_t, unsigned long>::value && std::is_same<uint8_t, unsigned char>::value, "stub <cstdint> typedefs");\n'
@@ -293,7 +349,8 @@ def make_build(unit, W, grouped, kind, n0, sgn):
                      [unit.files[(W, grouped)], '-o', 'cpp.gb'], wd, 'C13 harness TU w%d' % W)
         core.goto_cc(defs + [unit.files[(W, 'c')], '-o', 'c.gb'], wd, 'C13 contracts w%d' % W)
         h = {'strlen': 'h_strlen', 'convert': 'h_convert', 'utos': 'h_utos', 'negtos': 'h_negtos',
-             'itos': 'h_itos', 'sutos': 'h_sutos', 'sitos': 'h_sitos'}[kind]
+             'itos': 'h_itos', 'sutos': 'h_sutos', 'sitos': 'h_sitos', 'dutos': 'h_dutos', 'ditos': 'h_ditos',
+             'dsutos': 'h_dsutos', 'dsitos': 'h_dsitos'}[kind]
         core.goto_cc(['cpp.gb', 'c.gb', '--function', h, '-o', 'l.gb'], wd, 'link')
         syms = core.symbols('l.gb', wd)
         s_conv = core.resolve_symbol(syms, conv_rx)
@@ -312,6 +369,16 @@ def make_build(unit, W, grouped, kind, n0, sgn):
         elif kind in ('sutos', 'sitos'):
             enf = ('w_' + kind, p + kind + '_contract')
             rep = [(s_conv, pc + 'convert_contract'), (s_len, 'strlen_contract')]
+        elif kind in ('dsutos', 'dsitos'):
+            enf = ('w_' + kind, p + kind[1:] + '_contract')
+            rep = [(s_conv, pc + 'convert_contract'), (s_len, 'strlen_contract')]
+        elif kind in ('dutos', 'ditos'):
+            # the overload of int2string( char*, T) selected for the W-bit type; every buffer converter it could forward to is
+            # replaced by its contract
+            ty = T if kind == 'dutos' else T.replace('unsigned_', 'signed_')
+            enf = (core.resolve_symbol(syms, r'^celma::format::%sint2string\(ptr_char,%s[,)]' % ('grouped_' if grouped else '', ty)), p + kind[1:] + '_contract')
+            rep = [(core.resolve_symbol(syms, rx_fn(U) + 'ptr_char,'), p + 'utos_contract'),
+                   (core.resolve_symbol(syms, rx_fn(I) + 'ptr_char,'), p + 'itos_contract')]
         elif kind == 'itos':
             enf = (core.resolve_symbol(syms, rx_fn(I) + 'ptr_char,'), p + 'itos_contract')
             rep = [(core.resolve_symbol(syms, rx_fn(U) + 'ptr_char,'), p + 'utos_contract'),
@@ -329,6 +396,10 @@ def make_cover_build(unit, W):
         core.goto_cc(['-DN0=1', '-DSGN=0', unit.files[(W, 'c')], '--function', 'h_cover', '-o', 'c.gb'], wd, 'C13 cover w%d' % W)
         return os.path.join(wd, 'c.gb')
     return build
+
+
+# the std::string variants normally take 15-60 s; under load (other checks in parallel) single 64-bit groups were seen at 300+ s
+STR_TO = {'quick': 900, 'thorough': 3000}
 
 
 def jobs(unit, tier, only=None):
@@ -374,18 +445,47 @@ def jobs(unit, tier, only=None):
             for n in sorted(x for x in sel if x <= M):
                 inst = {'width': W, 'digits': n, 'grouped': grouped, 'variant': 'std::string'}
                 out.append(Job('c13_%s_sutos_n%d' % (tag, n), 'uintNNtoString(v) -> std::string' + ('' if grouped else ' + stringTo<T> round trip'), p + 'sutos_contract',
-                               make_build(unit, W, grouped, 'sutos', n, 0), backend='sat', timeout=300, unwind=max(n + (n - 1) // 3 + 8, M + (M - 1) // 3 + 6), instance=inst))
+                               make_build(unit, W, grouped, 'sutos', n, 0), backend='sat', timeout=STR_TO[tier], unwind=max(n + (n - 1) // 3 + 8, M + (M - 1) // 3 + 6), instance=inst))
                 if n <= NEG_MAXDIG[W]:
                     out.append(Job('c13_%s_sitos_neg_n%d' % (tag, n), 'intNNtoString(v) -> std::string' + ('' if grouped else ' + stringTo<T> round trip'), p + 'sitos_contract',
-                                   make_build(unit, W, grouped, 'sitos', n, 2), backend='sat', timeout=300, unwind=max(n + (n - 1) // 3 + 8, M + (M - 1) // 3 + 6), instance=dict(inst, sign='-')))
+                                   make_build(unit, W, grouped, 'sitos', n, 2), backend='sat', timeout=STR_TO[tier], unwind=max(n + (n - 1) // 3 + 8, M + (M - 1) // 3 + 6), instance=dict(inst, sign='-')))
                 if n <= POS_MAXDIG[W]:
                     out.append(Job('c13_%s_sitos_pos_n%d' % (tag, n), 'intNNtoString(v) -> std::string' + ('' if grouped else ' + stringTo<T> round trip'), p + 'sitos_contract',
-                                   make_build(unit, W, grouped, 'sitos', n, 1), backend='sat', timeout=300, unwind=max(n + (n - 1) // 3 + 8, M + (M - 1) // 3 + 6), instance=dict(inst, sign='+')))
+                                   make_build(unit, W, grouped, 'sitos', n, 1), backend='sat', timeout=STR_TO[tier], unwind=max(n + (n - 1) // 3 + 8, M + (M - 1) // 3 + 6), instance=dict(inst, sign='+')))
             out.append(Job('c13_%s_sitos_zero' % tag, 'intNNtoString(v) -> std::string' + ('' if grouped else ' + stringTo<T> round trip'), p + 'sitos_contract',
                            make_build(unit, W, grouped, 'sitos', 1, 0), backend='sat', timeout=120, unwind=M + (M - 1) // 3 + 6, instance={'width': W, 'value': 0, 'grouped': grouped, 'variant': 'std::string'}))
             out.append(Job('c13_%s_itos_zero' % tag, 'intNNtoString(char*,v)', p + 'itos_contract',
                            make_build(unit, W, grouped, 'itos', 1, 0), backend='sat', timeout=120,
                            instance={'width': W, 'value': 0, 'grouped': grouped}))
+        for grouped in (False, True):
+            p = 'g' if grouped else ''
+            tag = 'w%d%s' % (W, '_g' if grouped else '')
+            fn = ('grouped_' if grouped else '') + 'int2string'
+            # public dispatch headers: buffer overloads for every digit count (no loops: the converters are replaced by their
+            # contracts), std::string overloads for the shortest texts
+            for n in range(1, M + 1):
+                out.append(Job('c13_%s_dutos_n%d' % (tag, n), fn + '(char*, uintNN_t)', p + 'utos_contract', make_build(unit, W, grouped, 'dutos', n, 0),
+                               backend='sat', timeout=300, instance={'width': W, 'digits': n, 'grouped': grouped, 'dispatch': True}))
+                if n <= NEG_MAXDIG[W]:
+                    out.append(Job('c13_%s_ditos_neg_n%d' % (tag, n), fn + '(char*, intNN_t)', p + 'itos_contract', make_build(unit, W, grouped, 'ditos', n, 2),
+                                   backend='sat', timeout=300, instance={'width': W, 'digits': n, 'sign': '-', 'grouped': grouped, 'dispatch': True}))
+                if n <= POS_MAXDIG[W]:
+                    out.append(Job('c13_%s_ditos_pos_n%d' % (tag, n), fn + '(char*, intNN_t)', p + 'itos_contract', make_build(unit, W, grouped, 'ditos', n, 1),
+                                   backend='sat', timeout=300, instance={'width': W, 'digits': n, 'sign': '+', 'grouped': grouped, 'dispatch': True}))
+            out.append(Job('c13_%s_ditos_zero' % tag, fn + '(char*, intNN_t)', p + 'itos_contract', make_build(unit, W, grouped, 'ditos', 1, 0),
+                           backend='sat', timeout=120, instance={'width': W, 'value': 0, 'grouped': grouped, 'dispatch': True}))
+            uw = M + (M - 1) // 3 + 8
+            rt = '' if grouped else ' + stringTo<T> round trip'
+            for n in ((1, 4) if grouped and M >= 4 else (1, 2)):
+                inst = {'width': W, 'digits': n, 'variant': 'std::string', 'grouped': grouped, 'dispatch': True}
+                out.append(Job('c13_%s_dsutos_n%d' % (tag, n), fn + '(uintNN_t) -> std::string' + rt, p + 'sutos_contract',
+                               make_build(unit, W, grouped, 'dsutos', n, 0), backend='sat', timeout=STR_TO[tier], unwind=uw, instance=inst))
+                if n <= NEG_MAXDIG[W]:
+                    out.append(Job('c13_%s_dsitos_neg_n%d' % (tag, n), fn + '(intNN_t) -> std::string' + rt, p + 'sitos_contract',
+                                   make_build(unit, W, grouped, 'dsitos', n, 2), backend='sat', timeout=STR_TO[tier], unwind=uw, instance=dict(inst, sign='-')))
+                if n <= POS_MAXDIG[W]:
+                    out.append(Job('c13_%s_dsitos_pos_n%d' % (tag, n), fn + '(intNN_t) -> std::string' + rt, p + 'sitos_contract',
+                                   make_build(unit, W, grouped, 'dsitos', n, 1), backend='sat', timeout=STR_TO[tier], unwind=uw, instance=dict(inst, sign='+')))
         out.append(Job('c13_w%d_cover' % W, 'case split of the digit-count instances (w%d)' % W, 'covering assertion',
                        make_cover_build(unit, W), backend='sat', timeout=120, mode='harness',
                        instance={'width': W}))
@@ -411,18 +511,29 @@ def replay(unit, job, o, inputs, scratch):
     W = inst.get('width')
     grouped = bool(inst.get('grouped'))
     name = job.name
-    kind = next((k for k in ('strlen', 'convert', 'utos', 'negtos', 'itos') if '_' + k in name), None)
+    kind = next((v for k, v in (('dsutos', 'dutos'), ('dsitos', 'ditos'), ('dutos', 'dutos'), ('ditos', 'ditos'), ('sutos', 'utos'), ('sitos', 'itos'),
+                                ('strlen', 'strlen'), ('convert', 'convert'), ('utos', 'utos'), ('negtos', 'negtos'), ('itos', 'itos')) if '_' + k + '_' in name + '_'), None)
     if kind is None or W is None:
         return {'outcome': 'unavailable', 'detail': 'no native replay for ' + name}
     n0 = inst.get('result_len') or inst.get('digits') or 1
-    if kind in ('negtos', 'itos'):
+    if kind in ('negtos', 'itos', 'ditos'):
         val = _num(inputs.get('v', 0))
     elif kind == 'convert':
         val = _num(inputs.get('cv_gv', inputs.get('cvin_g', 0)))
     else:
         val = _num(inputs.get('v', inputs.get('cvin_g', 0)))
     g = _num(inputs.get('g', 39)) if grouped else 39
-    return native_replay(scratch, W, grouped, kind, val, n0, g)
+    r = native_replay(scratch, W, grouped, kind, val, n0, g)
+    if r.get('outcome') == 'not-reproduced' and kind in ('dutos', 'ditos'):
+        # a dispatch overload that forwards to the wrong converter fails the callee's (instance-split) precondition for every
+        # input, so the verifier's counterexample need not be an input with a wrong text: the type's boundary values are tried
+        cands = ([0, 1, 2 ** (W - 1) - 1, 2 ** (W - 1), 2 ** W - 1] if kind == 'dutos' else [0, 1, -1, 2 ** (W - 1) - 1, -2 ** (W - 1)])
+        for c in cands:
+            r2 = native_replay(scratch, W, grouped, kind, c, n0, g)
+            if r2.get('outcome') == 'reproduced':
+                r2['note'] = 'the verifier\'s counterexample (value %d) does not fail natively; found by trying the boundary values of the type' % val
+                return r2
+    return r
 
 
 def native_replay(scratch, W, grouped, kind, val, n0, g):
@@ -451,20 +562,21 @@ def evidence_info(unit, tier):
                        'property statement (digit k = floor(v/10^k) mod 10, NDIG by threshold comparison, NUL, sign, group '
                        'character positions), for all values of the type: convert() once per result_len (straight-line), '
                        'intNN_str_length, and the callers once per digit count with callees replaced by their contracts; the '
-                       'case split is covered by a separate obligation. The destination buffer is exactly text+1 bytes, so '
+                       'case split is covered by a separate obligation. The std::string variants run through a copy-out wrapper with the same '
+                       'text contract plus the stringTo<T> round trip; the public dispatch overloads int2string / grouped_int2string carry the '
+                       'contract of the converter they must forward to (every converter they could call is replaced by its contract). The destination buffer is exactly text+1 bytes, so '
                        '"nothing beyond the NUL" is a memory-safety obligation. No loop, no unwinding bound.',
         'trusted_base': ['CBMC 6.11 C++ front end on the accepted subset (R-AUTO removes the silent auto=int deviation)',
                          'CBMC bit-vector semantics LP64; solvers MiniSat (built in), z3 4.8.12' + (', cvc5 1.0' if tier == 'thorough' else ''),
                          'stand-in headers <cstdint> <cstring> <string> <climits> (stubs/)',
                          'CBMC built-in model of strcpy (used by intNNtoString for value 0)',
                          'extraction rules R-ANON, R-AUTO are semantics-preserving (hit counts checked each run)'],
-        'assumptions': ['std::string variants are exercised only by the native replay and (thorough tier) the string wrapper harness',
-                        'public dispatch templates int2string<T>/grouped_int2string<T> (enable_if) are not under contract: a g++ witness static_asserts they forward to the verified detail:: functions',
+        'assumptions': ['public dispatch headers int2string.hpp / grouped_int2string.hpp (enable_if overload sets): textually instantiated per (size, signedness) row with the fixed-width type of the row (R-SFINAE, g++-witnessed); other integral types of the same size and signedness select the same row in real C++ and are not separately instantiated',
+                        'std::string variants of the dispatch overloads: shortest texts only (the buffer overloads: every digit count)',
                         'GroupedInt<T,S> stream wrapper not under contract',
                         'termination not proved (code is loop-free)',
-                        'text-to-value round trip (stringTo<T> = std::sto*) is library code, not under contract'],
-        'not_under_contract': ['celma::format::int2string<T> (dispatch)', 'celma::format::grouped_int2string<T> (dispatch)',
-                               'celma::format::GroupedInt<T,S>', 'celma::format::stringTo<T>'],
+                        'text-to-value round trip: stringTo<T> is under contract for its type -> std::sto* mapping, std::sto* itself is a ghost-contract stand-in (library code)'],
+        'not_under_contract': ['celma::format::GroupedInt<T,S>, groupedInt<T>()', 'std::stoi/stol/stoul/... (library)'],
     }
 
 
